@@ -71,6 +71,7 @@ func main() {
 		props = []string{prop}
 	}
 	status := 0
+	scratch := ""
 	for _, id := range props {
 		t0 := time.Now()
 		c := core.NewCtx(prog, id, *tier)
@@ -95,11 +96,14 @@ func main() {
 		vd := *verif
 		if *noEvidence {
 			vd = filepath.Join(os.TempDir(), fmt.Sprintf("lemolint-noev-%d", os.Getpid()))
-			defer os.RemoveAll(vd)
+			scratch = vd
 		}
 		if st := core.Report(c, findings, vd, seed, wall, strings.Join(os.Args, " ")); st > status {
 			status = st
 		}
+	}
+	if scratch != "" {
+		os.RemoveAll(scratch)
 	}
 	os.Exit(status)
 }
